@@ -84,7 +84,7 @@ UNITS.append(dict(name='C20.dispatch', props=['C20'], kind='B', route='stub', en
      tus=[dict(file=OT, include_as='VERIF_TU'), dict(file='dbus/dbus-list.c')], harness='harness/c20_dispatch.c',
      replace_calls={'handle_default_introspect_and_unlock': 'verif_stub_default_introspect'},
      unwind=5, timeout=600, expect_s=60, bounds={'chain_depth': 3, 'handler_list': 3, 'note': 'found node plus at most two ancestors; real dbus-list.c'},
-     must_have=['postD exactly the expected handlers', 'postE found_object'],
+     must_have=['postD exactly the expected handlers', 'postE found_object whenever'],
      functions=[dict(name='_dbus_object_tree_dispatch_and_unlock', file=OT, status='bounded', contract='handlers: exact node first, then fallback ancestors, deepest first, until one does not decline; result; found_object; lock alternation; references balanced'),
                 dict(name='find_handler -> find_subtree_recurse', file=OT, status='replaced', note='whole deepest-match contract = C20.find + induction on the path length (paper step)'),
                 dict(name='_dbus_object_subtree_ref/_unref', file=OT, status='inlined', note='real code'),
@@ -94,3 +94,8 @@ UNITS.append(dict(name='C20.dispatch', props=['C20'], kind='B', route='stub', en
                 dict(name='_dbus_mem_pool_*/_dbus_lock', file='dbus/dbus-mempool.c', status='assumed', note='pool = malloc of the element size; global lock always granted')],
      assumptions=['find_subtree_recurse(root, path, deepest-match) returns the node of the path (exact) or the nearest ancestor flagged invoke_as_fallback (C20.find + paper induction)',
                   'registered handlers return HANDLED, NOT_YET_HANDLED or NEED_MEMORY', MEM]))
+
+_d = dict([u for u in UNITS if u['name'] == 'C20.dispatch'][0])
+_d.update(name='C20.found', defines=['VERIF_CHECK_FOUND'], must_have=['postE found_object iff'],
+          functions=[dict(name='_dbus_object_tree_dispatch_and_unlock', file=OT, status='bounded', contract='found_object iff the path is a node of the registered tree or lies below a REGISTERED fallback handler (property C20: UnknownMethod vs UnknownObject)')] + _d['functions'][1:])
+UNITS.append(_d)
